@@ -25,54 +25,66 @@ def rand_attrs(rng):
 
 
 def observe_program(P, givens, seed):
-    """Build P under random configurations and run every argument tuple; returns observation rows."""
+    """Build P once under a random configuration and call the SAME object with every argument tuple in turn
+    (a later call must not see anything of an earlier one except setup results); returns observation rows."""
     import prog_gen as pg
     import prog_run as pr
 
     rng = random.Random(seed)
     rows = []
+    is_async = rng.random() < 0.3
+    mc = rng.randint(1, 4)
+    d = flat = None
+    build_error = None
+    try:
+        d, flat = pr.build(P, rand_attrs(rng), is_async=is_async, mc=mc)
+        how = rng.random()
+        if how < 0.3:
+            # reconfigure priorities / sequentiality after the build: must not change the value
+            ids = [i for _, i in flat]
+            conf = {"nodes": {i: {"priority": rng.randint(-3, 9), "is_sequential": rng.random() < 0.2}
+                              for i in rng.sample(ids, min(len(ids), rng.randint(1, 3)))}, "max_concurrency": rng.randint(1, 4)}
+            if how < 0.1:
+                d.config_from_dict(conf)
+            else:
+                import tempfile
+                suffix = ".json" if how < 0.2 else ".yaml"
+                with tempfile.NamedTemporaryFile("w", suffix=suffix, delete=False) as f:
+                    if suffix == ".json":
+                        json.dump(conf, f)
+                    else:
+                        import yaml
+                        yaml.safe_dump(conf, f)
+                (d.config_from_json if suffix == ".json" else d.config_from_yaml)(f.name)
+                os.remove(f.name)
+    except BaseException as e:  # noqa: BLE001
+        build_error = e
+    setup_paths = [[j] for j, s in enumerate(P["sites"], 1) if s.get("setup")]
+    pre = []
     for given in givens:
-        is_async = rng.random() < 0.3
-        mc = rng.randint(1, 4)
         row = {"given": [pg.encode(x) for x in given], "raised": False, "errclass": "", "val": pg.verr(), "exec": [],
-               "dup": False, "async": is_async, "built": True, "twice": False, "mc": mc, "conc": 0, "loop": 0}
-        try:
-            d, flat = pr.build(P, rand_attrs(rng), is_async=is_async, mc=mc)
-            how = rng.random()
-            if how < 0.3:
-                # reconfigure priorities / sequentiality after the build: must not change the value
-                ids = [i for _, i in flat]
-                conf = {"nodes": {i: {"priority": rng.randint(-3, 9), "is_sequential": rng.random() < 0.2}
-                                  for i in rng.sample(ids, min(len(ids), rng.randint(1, 3)))}, "max_concurrency": rng.randint(1, 4)}
-                if how < 0.1:
-                    d.config_from_dict(conf)
-                else:
-                    import tempfile
-                    suffix = ".json" if how < 0.2 else ".yaml"
-                    with tempfile.NamedTemporaryFile("w", suffix=suffix, delete=False) as f:
-                        if suffix == ".json":
-                            json.dump(conf, f)
-                        else:
-                            import yaml
-                            yaml.safe_dump(conf, f)
-                    (d.config_from_json if suffix == ".json" else d.config_from_yaml)(f.name)
-                    os.remove(f.name)
-        except BaseException as e:  # noqa: BLE001
+               "dup": False, "async": is_async, "built": True, "twice": False, "mc": mc, "conc": 0, "loop": 0, "pre": list(pre)}
+        if build_error is not None:
             row["built"] = False
-            row["twice"] = "already occupied" in str(e)
-            row["errclass"] = type(e).__name__
-            row["msg"] = str(e)[:160]
+            row["twice"] = "already occupied" in str(build_error)
+            row["errclass"] = type(build_error).__name__
+            row["msg"] = str(build_error)[:160]
             rows.append(row)
-            continue
+            break
         r = pr.run_real(d, flat, row["given"], is_async)
         row.update({k: r[k] for k in ("raised", "errclass", "val", "exec", "dup")})
         if r.get("unknown"):
             row["unknown"] = r["unknown"]
         if r.get("msg"):
             row["msg"] = r["msg"]
-        ref = pr.plain_call(P, given)
-        row["ref"] = ref
+        row["ref"] = pr.plain_call(P, given)
+        if row["ref"].get("exec") is not None:
+            row["ref"]["exec"] = [p for p in row["ref"]["exec"] if p not in pre]
         rows.append(row)
+        # which setup results the object holds now (a call can fail while assembling its return value, after the
+        # execution itself succeeded and stored them)
+        held = {iid for iid in d.results}
+        pre = sorted(list(path) for path, iid in flat if list(path) in setup_paths and iid in held)
     return rows
 
 
@@ -101,7 +113,12 @@ def plan(tier, seed):
         progs.append(pg.gen_program(rng, nsites=rng.randint(2, 8), max_depth=rng.choice([1, 2, 2, 3])))
     jobs = []
     for i, P in enumerate(progs):
-        givens = [pg.gen_args(P, rng) for _ in range(2 if tier == "quick" else 3)]
+        givens = [pg.gen_args(P, rng) for _ in range(3 if tier == "quick" else 4)]
+        if P["params"] and rng.random() < 0.5:
+            # explicit values for every parameter first, then a call that relies on the defaults
+            full = givens[0] + [rng.choice(pg.INT_VALUES) if P["ptypes"][p] == "int" else rng.choice(pg.FLAG_VALUES) for p in range(len(givens[0]), len(P["params"]))]
+            required = sum(1 for p in P["params"] if not p["has"])
+            givens = [full, full[:required]] + givens[1:]
         if rng.random() < 0.05 and P["params"]:
             givens.append(givens[0][:max(0, sum(1 for p in P["params"] if not p["has"]) - 1)])   # a required argument is missing
         if rng.random() < 0.03:
@@ -156,7 +173,7 @@ def run(tier, seed, log=common.say):
         used = sorted({r["p"] for r in b})
         remap = {p: k + 1 for k, p in enumerate(used)}
         path = os.path.join(common.CACHE, f"e2-{os.getpid()}-{i}.json")
-        rows = [{"p": remap[r["p"]], **{k: r[k] for k in ("given", "raised", "errclass", "val", "exec", "dup", "async", "built", "twice", "conc", "loop")}} for r in b]
+        rows = [{"p": remap[r["p"]], **{k: r[k] for k in ("given", "raised", "errclass", "val", "exec", "dup", "async", "built", "twice", "conc", "loop", "pre")}} for r in b]
         with open(path, "w") as f:
             json.dump({"progs": [stripped[p - 1] for p in used], "obs": rows}, f)
         try:
@@ -286,7 +303,7 @@ def replay(payload, log=common.say):
     P = payload["prog"]
     given = [pg.decode(x) for x in payload["given"]]
     row = {"p": 1, "given": payload["given"], "raised": False, "errclass": "", "val": pg.verr(), "exec": [], "dup": False,
-           "async": payload.get("async", False), "built": True, "twice": False, "conc": 0, "loop": 0}
+           "async": payload.get("async", False), "built": True, "twice": False, "conc": 0, "loop": 0, "pre": []}
     try:
         d, flat = pr.build(P, lambda k: {}, is_async=row["async"], mc=2)
         r = pr.run_real(d, flat, payload["given"], row["async"])
